@@ -27,7 +27,7 @@ RULE = (
     "edited category; distinct = distinct (document, operation)."
 )
 ASSUMPTIONS = [
-    "substitution alphabets have distinct characters and are at least as long as the number of distinct values (the library indexes the alphabet by first-seen rank)",
+    "substitution alphabets have distinct characters; one with fewer symbols than the item has distinct values admits no mapping of the stated kind, so a refusal (the library raises IndexError) is accepted there, and an answer is accepted only if it is an injective mapping that starts with the alphabet in first-seen order, is returned and is applied",
     "category order inside the file is not compared, only category content",
     "documents that a plain IoAdapterPy read/write does not preserve are outside the check (limitation of the mmcif package, not of rnapolis)",
     "trusted: the harness CIF tokenizer (cross-checked against IoAdapterPy on the corpus)",
@@ -207,7 +207,19 @@ def oracle(case):
                 import string
                 alphabet = "".join(c for c in string.printable if c not in string.whitespace)
             else:
-                result = replace_value(text, category, col, alphabet)
+                try:
+                    result = replace_value(text, category, col, alphabet)
+                except Exception:
+                    # an alphabet with fewer symbols than the item has distinct values admits no injective mapping:
+                    # refusing the request is the one acceptable answer that is not such a mapping
+                    present = category in before and col in before[category][0]
+                    if present:
+                        bi, br = before[category]
+                        if len({r[bi.index(col)] for r in br}) > len(alphabet):
+                            info["present"] = True
+                            info["rejected_short_alphabet"] = True
+                            return out
+                    raise
             if not (isinstance(result, tuple) and len(result) == 2):
                 return [D("C20:replace:not-a-pair", f"replace_value returned {type(result).__name__}")]
             new_text, mapping = result
@@ -222,7 +234,11 @@ def oracle(case):
                 ref = {}
                 for v in values:
                     if v not in ref:
-                        ref[v] = alphabet[len(ref)]
+                        # beyond the end of the alphabet the statement only demands an injective mapping that is
+                        # returned and applied: whatever the library returned for that value is taken as given
+                        ref[v] = alphabet[len(ref)] if len(ref) < len(alphabet) else dict(mapping).get(v)
+                if len(ref) > len(alphabet):
+                    info["accepted_short_alphabet"] = True
                 if dict(mapping) != ref:
                     out.append(D("C20:replace:mapping-wrong", f"returned mapping {dict(mapping)} != first-seen mapping {ref}"))
                 elif list(mapping.keys()) != list(ref.keys()):
@@ -274,6 +290,10 @@ def classify(case):
         return bool(info.get("present")), labs + ["corpus"] + (["present"] if info.get("present") else ["absent"])
     doc = case["doc"]
     labs.append("present" if info.get("present") else "absent")
+    if info.get("rejected_short_alphabet"):
+        labs.append("alphabet-too-short-refused")
+    if info.get("accepted_short_alphabet"):
+        labs.append("alphabet-too-short-answered")
     op = case["op"]
     cat = next((c for c in doc if c["name"] == op["category"]), None)
     multi = any(" " in v for c in doc for r in c["rows"] for v in r)
@@ -345,7 +365,10 @@ def st_cases():
             op = {"kind": "copy", "category": category, "source": src, "target": dst, "defaults": draw(st.integers(0, 9)) == 0}
         else:
             col = draw(st.sampled_from(cat["items"] + ["absent_item"]))
-            alphabet = draw(st.sampled_from(["ABCDEFGHIJKLMNOPQRSTUVWXYZ", "abcdefghij0123456789", "ZYXWVUTSRQPONMLK", "0123456789abcdefghijklmnopqrstuvwxyz"]))
+            # mostly alphabets with room for every value; sometimes fewer symbols than the item has distinct values
+            # (symbols that also occur as values included), where only a refusal or an injective mapping is right
+            alphabet = draw(st.sampled_from(["ABCDEFGHIJKLMNOPQRSTUVWXYZ", "abcdefghij0123456789", "ZYXWVUTSRQPONMLK", "0123456789abcdefghijklmnopqrstuvwxyz",
+                                             "AB", "BA1", "A", "12AB", "ab"]))
             op = {"kind": "replace", "category": category, "item": col, "alphabet": alphabet, "defaults": draw(st.integers(0, 9)) == 0}
         return {"doc": doc, "op": op, "extra_blocks": extra}
 
